@@ -35,7 +35,7 @@ def gen_case(rng, i, tier):
         case["ops"] = gen.gen_history(rng, len(case["trace"]), case["cfg"]["width"], allow_cwd=True, max_ops=3)
         case["debug"] = False
         return case
-    case = mcase.gen_mcase(rng, width="maybe", tighten_p=0.3, sparse_p=0.35, max_obs=9)
+    case = mcase.gen_mcase(rng, families=gen.FAMILIES_ALL, width="maybe", tighten_p=0.3, sparse_p=0.35, max_obs=9)
     n = len(case["trace"])
     case["ops"] = gen.gen_history(rng, n, case["cfg"]["width"], allow_cwd=True, max_ops=5)
     case["debug"] = rng.random() < 0.25
